@@ -38,7 +38,27 @@ var c17PlainNames = []string{"déjà", "Ångström", "act", "Emote", "play_sound
 // names the lexer reads as keywords although they only begin with one: known finding K3
 var c17K3Names = []string{"elsewhere", "elseifx", "endiffy", "endenumx", "else_", "endifs", "endenumerate", "elsey"}
 
-var c17HostileWords = []string{"true", "false", "TRUE", "True", "False", "-1", "-1.5", "007", "+1", "1e3", ".5", "5.", "0x10", "1_000", "nan", "NaN", "Nan", "inf", "Inf", "Infinity", "-inf", "-", "--1", "a:b", "1.2.3", "1-", "1,5", "0", "-0", "3.14159", "00.50", "12abc", "e", "0b1", "0o7", "1e", "١٢", "t", "f", "T", "F", "yes", "no", "on", "off", "null", "1e-3", "1E3", "0.", "-.5", "+.5", "1/2", "∞", "-1e3", "0e0"}
+var c17HostileWords = []string{"true", "false", "TRUE", "True", "False", "-1", "-1.5", "007", "+1", "1e3", ".5", "5.", "0x10", "1_000", "nan", "NaN", "Nan", "inf", "Inf", "Infinity", "-inf", "-", "--1", "a:b", "1.2.3", "1-", "1,5", "0", "-0", "3.14159", "00.50", "12abc", "e", "0b1", "0o7", "1e", "١٢", "t", "f", "T", "F", "yes", "no", "on", "off", "null", "1e-3", "1E3", "0.", "-.5", "+.5", "1/2", "∞", "-1e3", "0e0",
+	// decimal literals that are long, or too large / too small for a float64: numbers all the same
+	"1000000000000000000000000", "3.1415926535897932384626433832", "-0.00000000000000000000000001", "000000000000000000000000042",
+	"1" + strings.Repeat("0", 400), "-1" + strings.Repeat("0", 310), "0." + strings.Repeat("0", 400) + "1", strings.Repeat("9", 309) + ".5"}
+
+func c17PoolText() string {
+	var l []string
+	for _, w := range c17HostileWords {
+		l = append(l, c17Label(w))
+	}
+	return strings.Join(l, " ")
+}
+
+// c17Label names a hostile word in the evidence (long words are abbreviated).
+func c17Label(w string) string {
+	if len(w) > 40 {
+		return fmt.Sprintf("%s...(%d characters)", w[:12], len(w))
+	}
+	return w
+}
+
 var c17PlainWords = []string{"voilà", "Åse", "😅", "naïveté", "ａｂ", "left", "Mae", "dérive", "日本", "x_1", "#hash", "a}b", "\"q\"", "'s'", "$var", "a/b", "a//b", "100%", "(p)", "[m]", "é"}
 
 func (c17) Thresholds(tier string) map[string]int64 {
@@ -68,7 +88,7 @@ func (c17) Thresholds(tier string) map[string]int64 {
 		"handlers-registered-in-mid-run":   800,
 	}
 	for _, w := range c17HostileWords {
-		th["hostile:"+w] = 20
+		th["hostile:"+c17Label(w)] = 20
 	}
 	for _, nm := range c17KeywordNames {
 		th["kwname:"+nm] = 20
@@ -77,12 +97,13 @@ func (c17) Thresholds(tier string) map[string]int64 {
 }
 
 func (c17) Rule() string {
-	return "case = one script of 30 generic commands <<name arg ...>> separated by lines, each registered under its name with a logging raw handler, plus one command under an unregistered name (must be an error) and a final <<stop>> with a handler registered under 'stop' (must never be invoked). Names: plain identifiers incl. multi-byte, and every keyword as a prefix (" + strings.Join(c17KeywordNames, ", ") + "); words: a hostile pool (" + strings.Join(c17HostileWords, " ") + ") and plain words incl. multi-byte and punctuation; {expression} arguments of each type surrounded by blanks; separators: single blank, runs of blanks, tabs, mixtures, also before >>. Oracle: the handler log (name, typed argument list, once, in order) equals the model's: a word is a boolean iff it is exactly true/false, a number iff it matches -?[0-9]+(\\.[0-9]+)?, otherwise a string; expressions arrive as their value. The raw handlers keep the argument slices they receive; at the end of the script each is compared with what it held when it was received. Further sub-workloads: two {expressions} written back to back (two arguments, nothing between them); a node that runs 2-5 commands over compound expressions of $n/$b/$s, changes the variables and jumps back to itself (every execution must deliver the values as they evaluate then); two runners over one script where the second registers another handler under the same name or none (each command reaches the handler of its own runner; a name registered only elsewhere is an error); a runner whose host replaces one handler and registers another under a new name in mid-run - right after a line, while a choice is awaited, or after a restore to its own snapshot, and after the first handler served 1-5 times (every later command statement reaches the handler registered under its name by then). Non-trivial: >=2 arguments of >=2 expected types, or a keyword-prefixed name, or a hostile word. Distinct by hash of the command's source text. Names beginning with else/endif/endenum are the known finding K3 and run in a sub-workload of their own."
+	return "case = one script of 30 generic commands <<name arg ...>> separated by lines, each registered under its name with a logging raw handler, plus one command under an unregistered name (must be an error) and a final <<stop>> with a handler registered under 'stop' (must never be invoked). Names: plain identifiers incl. multi-byte, and every keyword as a prefix (" + strings.Join(c17KeywordNames, ", ") + "); words: a hostile pool (" + c17PoolText() + ") and plain words incl. multi-byte and punctuation; {expression} arguments of each type surrounded by blanks; separators: single blank, runs of blanks, tabs, mixtures, also before >>. Oracle: the handler log (name, typed argument list, once, in order) equals the model's: a word is a boolean iff it is exactly true/false, a number iff it matches -?[0-9]+(\\.[0-9]+)?, otherwise a string; expressions arrive as their value. The raw handlers keep the argument slices they receive; at the end of the script each is compared with what it held when it was received. Further sub-workloads: two {expressions} written back to back (two arguments, nothing between them); a node that runs 2-5 commands over compound expressions of $n/$b/$s, changes the variables and jumps back to itself (every execution must deliver the values as they evaluate then); two runners over one script where the second registers another handler under the same name or none (each command reaches the handler of its own runner; a name registered only elsewhere is an error); a runner whose host replaces one handler and registers another under a new name in mid-run - right after a line, while a choice is awaited, or after a restore to its own snapshot, and after the first handler served 1-5 times (every later command statement reaches the handler registered under its name by then). Non-trivial: >=2 arguments of >=2 expected types, or a keyword-prefixed name, or a hostile word. Distinct by hash of the command's source text. Names beginning with else/endif/endenum are the known finding K3 and run in a sub-workload of their own."
 }
 
 func (c17) Assumptions() []string {
 	return []string{
-		"'decimal literal' is the grammar's own NUMBER (digits, optionally one point followed by digits), optionally negative",
+		"'decimal literal' is the grammar's own NUMBER (digits, optionally one point followed by digits), optionally negative; a decimal literal outside the range of a float64 is the number a correctly rounding conversion gives (an infinity or zero), as for a number literal in an expression",
+		"a command whose NAME is a boolean or number word (<<true>>, <<42 x>>) is not generated: true / false are words of the language like the keywords, and 42 is not identifier-like",
 		"words contain no blanks, tabs, '>' or '{'; an {expression} argument is always separated from neighbouring WORDS by at least one blank or tab (what a word glued to an expression means is not settled); two expressions may touch",
 		"names that are exactly a keyword (if, set, jump, stop, wait ...) are not 'merely beginning with a keyword' and are not generated as custom commands",
 		"K3 is matched only for a command whose name begins with else, endif or endenum and only when loading fails",
@@ -119,7 +140,7 @@ func (p c17) command(c *core.Ctx, name string, id int) (*hast.Stmt, bool) {
 		case 0:
 			w := c17HostileWords[r.Intn(len(c17HostileWords))]
 			st.Args = append(st.Args, hast.CmdArg{Word: w})
-			c.Feature("hostile:" + w)
+			c.Feature("hostile:" + c17Label(w))
 			v := model.WordValue(w)
 			types[v.T] = true
 			switch {
